@@ -1194,3 +1194,54 @@ def op_c18(case):
             break  # larger sizes of a family that already exploded are not run
     sys.setrecursionlimit(1000)
     return {"series": out}
+
+
+# ---------------------------------------------------------------------------------------------
+# TokenSource conformance: drive the real Tokenizer class with a synthetic token stream
+# ---------------------------------------------------------------------------------------------
+def op_toksrc(case):
+    from peg_parser.tokenize import Token, TokenInfo
+    from peg_parser.tokenizer import Tokenizer
+
+    src = case["src"]
+    raw = case["raw"]
+
+    def gen():
+        for t in raw:
+            yield TokenInfo(Token[t["ty"]], src[t["b"]: t["e"]], (1, t["b"]), (1, t["e"]), src)
+
+    out = []
+    for hist in case["histories"]:
+        tk = Tokenizer(gen())
+        obs, dead = [], False
+        for h in hist:
+            if dead:
+                break
+            op, arg = h["op"], h["arg"]
+            tok, err = None, ""
+            try:
+                if op == "peek":
+                    tok = tk.peek()
+                elif op == "getnext":
+                    tok = tk.getnext()
+                elif op == "reset":
+                    tk.reset(arg)
+                elif op == "setcall":
+                    tk._call_macro = True      # what handle_func_macro_start does
+                elif op == "setproc":
+                    tk._proc_macro = True      # handle_proc_macro_start
+                elif op == "clearproc":
+                    tk._proc_macro = False     # proc_macro_arg
+            except SyntaxError:
+                err, dead = "SyntaxError", True
+            except BaseException as e:  # noqa: BLE001
+                err, dead = type(e).__name__, True
+            o = {"op": op, "arg": arg, "index": int(tk._index), "n": len(tk._tokens), "call": bool(tk._call_macro), "proc": bool(tk._proc_macro),
+                 "stack": len(tk._stack), "err": err, "ty": "", "b": 0, "e": 0, "slice_ok": True}
+            if tok is not None:
+                o["ty"], o["b"], o["e"] = tok.type.name, tok.start[1], tok.end[1]
+                if tok.type.name == "MACRO_PARAM":
+                    o["slice_ok"] = tok.string == src[tok.start[1]: tok.end[1]]
+            obs.append(o)
+        out.append(obs)
+    return {"observations": out}
